@@ -313,6 +313,7 @@ func WorkerMain() {
 		nshards = flag.Int("nshards", 1, "number of shards")
 		from    = flag.Int("from", 0, "skip cases with index < from")
 		only    = flag.Int("only", -1, "run only this case index")
+		to      = flag.Int("to", -1, "stop after this case index (with -from: replays a stretch of one shard's sequence)")
 		logpath = flag.String("log", "", "shard log path")
 		list    = flag.Bool("list", false, "print registered properties as JSON")
 		count   = flag.Bool("count", false, "print number of cases")
@@ -426,7 +427,7 @@ func WorkerMain() {
 			runOne(i)
 		}
 	}
-	if p.Finish != nil && *only < 0 {
+	if p.Finish != nil && *only < 0 && *to < 0 {
 		if r := p.Finish(ctx); r != nil && r.Verdict != Held && r.Verdict != "" {
 			LogResult(-2, *r)
 		}
